@@ -45,7 +45,7 @@ Section RT2.
   Hypothesis H38 : vge c [3; 8] = false.
   Hypothesis H23 : vge c [2; 3] = ge23.
   Hypothesis H13 : vge c [1; 3] = true.
-  Hypothesis H20 : vge c [2; 0] = true.
+  Hypothesis H20 : vge c [2; 1] = true.
   Hypothesis H15 : vge c [1; 5] = true.
 
   Definition in_field (x : Z) : Prop := if ge23 then in32 x else in16 x.
